@@ -19,7 +19,7 @@ RULE = ('Noll indices 1..231 (quick) / 1..1326 (thorough) enumerated completely 
 ASSUMPTIONS = ['the sign of sine modes is not pinned by the property: +sin and -sin are both accepted (per mode)']
 PLAN = {'quick': {'gen': 8}, 'thorough': {'gen': 16, 'tests': 1, 'docs': 1}}
 REQUIRED_BUCKETS = ['index', 'value:normalized', 'value:unnormalized', 'gram:diag', 'gram:offdiag', 'coords:even', 'coords:odd',
-                    'coords:offcentre', 'support-only', 'coords:shared', 'basis', 'compose:normalized', 'compose:unnormalized', 'theta:undefined-for-m=0', 'coords:narrow-float', 'value:high-order', 'coords:rho>1', 'coords:result-edited', 'zero-outside:overflow', 'coords:theta-only', 'index:type=uint64', 'index:type=int', 'value:index-type']
+                    'coords:offcentre', 'support-only', 'coords:shared', 'basis', 'compose:normalized', 'compose:unnormalized', 'theta:undefined-for-m=0', 'coords:narrow-float', 'value:high-order', 'coords:rho>1', 'coords:result-edited', 'zero-outside:overflow', 'coords:theta-only', 'index:type=uint64', 'index:type=int', 'value:index-type', 'coords:undefined-outside-mask']
 REQUIRED_ANCHORS = ['probe:zernike_index', 'anchor:R', 'anchor:zernike', 'anchor:zernike_coordinates']
 REQUIRED_ORACLES = ['index=noll', 'index:bijective', 'mode=textbook', 'R(1)=1', 'gram=I', '|Z|<=1', 'rho=centroid-distance',
                     'origin=centroid', 'zero-outside', 'support-only']
@@ -152,6 +152,20 @@ def workload(ctx, lentil):
             desc['coords'] = np.dtype(narrow).name
         else:
             rho_arg = rho
+        if i % 6 == 1 and np.any(mask == 0):
+            # coordinates that exist on the aperture only (NaN / inf wherever there is no aperture, in the radius, the azimuth or
+            # both): the mode is zero outside the mask whatever is stored there
+            which = (i // 6) % 3
+            bad = [np.nan, np.inf, -np.inf][(i // 18) % 3]
+            out_ = mask == 0
+            if which in (0, 2):
+                theta_arg = np.array(theta_arg, copy=True)
+                theta_arg[out_] = bad
+            if which in (1, 2):
+                rho_arg = np.array(rho_arg, copy=True)
+                rho_arg[out_] = bad
+            ctx.bucket('coords:undefined-outside-mask')
+            desc['undefined_outside'] = ['theta', 'rho', 'both'][which]
         j_arg = j
         if i % 7 == 5:
             # the mode number as an element of an integer array of whatever dtype
